@@ -45,7 +45,21 @@ def ka_scenarios(rng, n):
             ops.append({'op': 'map', 'n': 4, 'chunk_size': 1, 'init': True, 'exit': True})
         if rng.random() < .5:
             ops.append({'op': 'stop_and_join'})
-        out.append({'seed': rng.randint(0, 10 ** 6), 'pool': pool, 'ops': ops, 'same_func': rng.random() < .6, 'relax_shape': True})
+        sc = {'seed': rng.randint(0, 10 ** 6), 'pool': pool, 'ops': ops, 'same_func': rng.random() < .6, 'relax_shape': True}
+        if rng.random() < .12:
+            # each call's own timeouts: the deferred worker_exit (1 s) runs at stop_and_join under the LAST call's exit timeout (100 s),
+            # not under the 0.3 s of an earlier call
+            sc['pool'] = {'n_jobs': rng.choice([1, 2]), 'start_method': 'fork', 'keep_alive': True}
+            sc['ops'] = [{'op': 'map', 'n': rng.randint(2, 5), 'chunk_size': 1, 'init': True, 'exit': True, 'worker_exit_timeout': 0.3},
+                         {'op': 'map', 'n': rng.randint(2, 5), 'chunk_size': 1, 'init': True, 'exit': True, 'worker_exit_timeout': 100.0, 'exit_dur': 1.0},
+                         {'op': 'stop_and_join'}]
+            sc['same_func'] = True
+            sc['expect_join_ok'] = True
+        if rng.random() < .25:
+            # each call passes a functools.partial of the same underlying functions, bound to ITS data
+            sc['same_func'] = False
+            sc['func_kind'] = 'partial'
+        out.append(sc)
     return out
 
 
@@ -71,6 +85,9 @@ def judge(chk, sc, o):
             continue
         if op['op'] == 'stop_and_join':
             # deferred worker_exit runs now, once per instance that worked
+            if sc.get('expect_join_ok') and oo.get('outcome') != 'ok':
+                chk.violation('call_runs_with_its_own_settings', case, {'op': opi, 'raised': oo.get('exc')},
+                              'the deferred worker_exit is judged by the timeouts of the latest call', input_class='stale_timeouts')
             continue
         if op['op'] in oracles.MAPS and oo.get('outcome') == 'raise' and not op.get('fail'):
             chk.violation('call_runs_with_its_own_settings', case, {'op': opi, 'raised': oo.get('exc')},
